@@ -98,8 +98,11 @@ func ServeHTTP(h http.Handler, req *http.Request) (out *Resp) {
 		}()
 		h.ServeHTTP(rec, req)
 	}()
-	out.Status = rec.Code
-	out.Header = rec.Header().Clone()
+	// the header snapshot taken when the status line was written: what a client receives
+	// (rec.Header() would also show headers a handler adds too late)
+	res := rec.Result()
+	out.Status = res.StatusCode
+	out.Header = res.Header.Clone()
 	out.Body = rec.Body.String()
 	return out
 }
